@@ -30,14 +30,14 @@ ASSUMPTIONS = ['A-IO: the whole file reaches from_raw_buffer in one chunk (bnp.o
 PARTIAL = ['END-TO-END THEOREMS (file bytes -> written bytes satisfy the byte-level Spec, files of any size): every accepted program incl. '
            'field replacements for BED/BED6/narrowPeak (columns = entry fields), VCFBuffer on 8-column files (C04_delimited_program_end_to_end; '
            'LF both variants, CRLF repaired extractor), VCFBuffer2 with genotype columns (C04_vcf2_program_end_to_end, LF) and SAM with optional '
-           'tags (C04_sam_program_end_to_end, LF, repaired join); every selection program for FASTQ / two-line FASTA incl. CRLF '
+           'tags (C04_sam_program_end_to_end, LF, repaired join; without replacement also CRLF: C04_sam_crlf_end_to_end); every selection program for FASTQ / two-line FASTA incl. CRLF '
            '(C04_oneline_end_to_end) and BAM (C04_bam_end_to_end)',
            'still correspondence-only at byte level: FASTQ/FASTA with replaced fields or after np.concatenate (eager path), CRLF for VCFBuffer2/SAM '
            'with replaced fields, GTF (read eagerly: known finding), BedBuffer/VCFBuffer files with more columns than the entry type under '
-           'replacement (known finding: trailing columns dropped), SAM with CRLF (known finding: unreadable); for these the abstraction-level '
+           'replacement (known finding: trailing columns dropped); for these the abstraction-level '
            'theorem C04_program_write + the per-file hypothesis check Corr.C04.hyp_ok + spec_ok per case apply',
            'refuted for the code before fix-1/fix-2 (kept as history, explicit `pinned` variant): C04_crlf_selection_pinned_refuted, '
-           'C04_sam_replace_pinned_refuted; still refuted at HEAD: C04_trailing_columns_pinned_refuted, C04_gtf_pinned_refuted, C04_sam_crlf_pinned_refuted',
+           'C04_sam_replace_pinned_refuted; still refuted at HEAD: C04_trailing_columns_pinned_refuted, C04_gtf_pinned_refuted',
            'concatenation of operands that already carry replaced fields is outside the model (C05 covers it)']
 PER_FILE = 24
 
